@@ -37,6 +37,7 @@ pub fn all() -> Vec<CheckDef> {
                 Family { enumerate: None, variant: "", name: "T1-two-owner-cascade", strategy: |_| templates::t1(), cases: |t| t.pick(4_000, 40_000) },
                 Family { enumerate: None, variant: "", name: "T4-upgrade-racing-cascade", strategy: |_| templates::t4(), cases: |t| t.pick(12_000, 120_000) },
                 Family { enumerate: None, variant: "", name: "T3-reader-on-chain-harris-unlink", strategy: |_| templates::t3(), cases: |t| t.pick(4_000, 40_000) },
+                Family { enumerate: None, variant: "", name: "T11-upgrade-at-the-recursion-cap", strategy: |_| templates::t11(), cases: |t| t.pick(600, 6_000) },
                 Family { enumerate: None, variant: "", name: "saturation-leaked-clones-around-2^29", strategy: |_| crate::sat::leak_strategy(1), cases: |t| t.pick(6, 32) },
             ],
             exec: rcworld::exec,
@@ -65,6 +66,7 @@ pub fn all() -> Vec<CheckDef> {
                 Family { enumerate: None, variant: "", name: "T5-install-into-unlinked-node", strategy: |_| templates::t5(), cases: |t| t.pick(12_000, 120_000) },
                 Family { enumerate: None, variant: "", name: "T8-destructor-holding-a-guard", strategy: |_| templates::t8(), cases: |t| t.pick(12_000, 120_000) },
                 Family { enumerate: None, variant: "", name: "T10-long-disposal-spanning-re-pins", strategy: |_| templates::t10(), cases: |t| t.pick(1_600, 16_000) },
+                Family { enumerate: None, variant: "", name: "T11-upgrade-at-the-recursion-cap", strategy: |_| templates::t11(), cases: |t| t.pick(600, 6_000) },
                 Family { enumerate: None, variant: "", name: "T9-move-into-node-dying-by-cascade", strategy: |_| templates::t9(), cases: |t| t.pick(30_000, 300_000) },
             ],
             exec: rcworld::exec,
@@ -160,6 +162,7 @@ pub fn all() -> Vec<CheckDef> {
                 Family { enumerate: None, variant: "", name: "T2-upgrade-vs-last-drop", strategy: |_| templates::t2(), cases: |t| t.pick(12_000, 120_000) },
                 Family { enumerate: None, variant: "", name: "T4-upgrade-racing-cascade", strategy: |_| templates::t4(), cases: |t| t.pick(16_000, 160_000) },
                 Family { enumerate: None, variant: "", name: "T6-zero-weak-recount", strategy: |_| templates::t6(), cases: |t| t.pick(4_000, 40_000) },
+                Family { enumerate: None, variant: "", name: "T11-upgrade-at-the-recursion-cap", strategy: |_| templates::t11(), cases: |t| t.pick(600, 6_000) },
                 Family { enumerate: None, variant: "", name: "saturation-leaked-weak-clones-around-2^29", strategy: |_| crate::sat::leak_strategy(2), cases: |t| t.pick(6, 32) },
             ],
             exec: rcworld::exec,
